@@ -642,7 +642,8 @@ class HedTag:
         if not isinstance(other, HedTag):
             return False
 
-        if self.short_tag == other.short_tag:
+        # Letter case never matters (the hash folds it too), however the two tags were spelled.
+        if self.short_tag.casefold() == other.short_tag.casefold():
             return True
 
         if self.org_tag.casefold() == other.org_tag.casefold():
